@@ -54,6 +54,14 @@ CHECKS = {
          "generated configuration; runs inside are judged by a bounds oracle.",
     ref="6 C06", technique="Rocq proof over R (convexity, quadratic step condition, induction over the run) + hypothesis evaluation + bounds oracle + sampled step correspondence",
     note=TB % "c06" + "NoRemelt hypothesis observed, not derived; finiteness is checked by the oracle only."),
+ "C08": dict(
+    cat="proof",
+    text="Theorems over R (props/C08.v): the rate integral A * quadrature(k (T_eq_l - T)^b on the supercooled mask) is non-negative for non-negative weights; with E = sum K_v dt the nucleation "
+         "step is the first index with 1 - exp(-E) > F, crossed at no earlier and at every later step; min <= mean <= max; min over supercooled points <= kinetic mean <= T_eq_l. Tied to the code by an "
+         "independent recomputation of J, K_v, E from the saved fields of 0D/1D/2D runs (every step saved): the reported nucleation step must equal find_first of the model on the recomputed "
+         "sequence, the four reported temperatures must be those of the field; interval certificates for sampled rate values; quadrature weights measured and checked non-negative.",
+    ref="6 C08", technique="Rocq proof over R (first-crossing search, monotone hazard, weighted means) + recomputation oracle + find_first correspondence + interval certificates",
+    note=TB % "c08" + "Simpson weights measured from the integrator (harness shim around scipy.integrate.simpson), numpy global random stream trusted."),
  "C09": dict(
     cat="proof",
     text="Theorems for every batch shape and both arrangements (props/C09.v, axiom-free except the two heat-flow statements over R): "
@@ -72,6 +80,13 @@ CHECKS = {
          "model), run pairs with/without cnTemp (bit-identical prefix, fired set, times) and scripted lockstep runs.",
     ref="6 C10", technique="Rocq proof (last-index search, first-crossing search, prefix determinism of the run) + float correspondence of cnt + paired-run and lockstep oracles",
     note=TB % "c10" + "end-of-hold timing is a composition of C05 S6/S7 (partial there); cnTemp is taken between end and start temperature."),
+ "C11": dict(
+    cat="proof",
+    text="Theorems (props/C11.v): the controlled-nucleation trigger is the first step at which the coldest product temperature is <= cnTemp; at every earlier step the whole product is warmer; "
+         "hence cnTemp lies between the coldest temperatures of the trigger step and of the step before. Tied to the code on 0D/1D/2D runs with every cooling step saved: the reported trigger "
+         "step equals find_first evaluated on the observed minima, T_nuc(_min) <= cnTemp < previous minimum, T_nuc_min is the field minimum.",
+    ref="6 C11", technique="Rocq proof (first-crossing search) + find_first correspondence on observed minima + oracle",
+    note=TB % "c11" + "every step saved (processes of <= 10000 steps)."),
  "C12": dict(
     cat="proof",
     text="Theorem by induction over the steps of the run model (props/C12.v): for every vial the recorded nucleation time is (j+1)dt for the first "
@@ -81,6 +96,23 @@ CHECKS = {
          "Snowflake.stats; a direct oracle checks every vial's statistics, the fromStates accessors and the counters against the stored trajectory.",
     ref="6 C12", technique="Rocq proof (invariant by induction over steps, per-vial trace extracted from the batch run) + whole-run float correspondence + trajectory oracle",
     note=TB % "c12" + "fromStates accessors and sigmaCounter are checked by the oracle only (three known findings); query times are grid times; a query beyond the simulated grid is outside the property."),
+ "C13": dict(
+    cat="proof",
+    text="Loop skeleton of the Snowing runs (model/SnLoop.v: first-crossing searches, the two sparse save buffers with their strides, the slices and concatenations of the four reported histories). "
+         "Theorems (props/C13.v): a run yields a result iff both searches succeed and then reports the FIRST steps at which nucleation / 90 percent frozen hold; the time axis is non-decreasing for every "
+         "process length, nucleation step and stride; the four histories are maps over the same row list (equal lengths, same steps row by row); t_fr = t_nuc + t_sol. Tied to the code by comparing the "
+         "reported step indices with report_rows (incl. a run with stride > 1) and by an oracle for lengths, ordering, times within the process, 0.9 crossing at t_fr, programmed shelf temperature, and "
+         "no readable data after a run that raised.",
+    ref="6 C13", technique="Rocq proof (sortedness of filtered ranges, first-crossing search) + row-index correspondence by vm_compute + oracle",
+    note=TB % "c13" + "fresh object per run (stale private fields after a failed second run on the same object are not claimed)."),
+ "C14": dict(
+    cat="proof",
+    text="Theorems (props/C14.v): if every repetition is a pure function f(seed), then for every assignment of repetitions to worker chunks the results table has one row per repetition in seed "
+         "order, row i = f(i), and any two execution modes / worker counts agree. The hypothesis (purity per seed) and the conclusion are checked on real studies: Nrep 1..8, sequential and parallel "
+         "with mp.cpu_count overridden to 1/2/4/16, 0D/1D(/2D): bit-identical rows vs single runs with seed i on fresh objects, single run = repetition 0, repeated run() reproduces the table. "
+         "PARTIAL: OS scheduling sampled.",
+    ref="6 C14", technique="Rocq proof (association lists over arbitrary chunk partitions) + bit-identity oracle over modes and worker counts",
+    note=TB % "c14" + "purity of a repetition in its seed is the theorems' hypothesis, validated by bit-identity; numpy global stream re-seeded inside each run."),
  "C16": dict(
     cat="proof",
     text="Theorems for every batch with nx,ny >= 2 (flat or pallet), both arrangements (props/C16.v, axiom-free): every vial's exposure "
